@@ -26,8 +26,10 @@ def worker_cmd(mode, pid, hashseed, extra):
     return cmd, env
 
 
-def run_worker(mode, pid, hashseed, extra, timeout):
+def run_worker(mode, pid, hashseed, extra, timeout, tmpdir=None):
     cmd, env = worker_cmd(mode, pid, hashseed, extra)
+    if tmpdir:
+        env['TMPDIR'] = tmpdir
     return subprocess.run(cmd, env=env, cwd=ROOT, timeout=timeout, capture_output=True, text=True)
 
 
@@ -267,7 +269,7 @@ def minimise_and_write(pid, item, scratch, args):
         try:
             r = run_worker('minimize', pid, sc.get('hashseed', 0),
                            ['--scenario', orig, '--kind', kind, '--out', out, '--budget', str(args.min_budget)],
-                           timeout=900)
+                           timeout=900, tmpdir=scratch)
             if r.returncode == 0 and os.path.exists(out):
                 m = json.load(open(out))
                 if m.get('minimized'):
@@ -294,7 +296,7 @@ def replay_file(pid, path, scratch, trace=False):
     if os.path.exists(out):
         os.remove(out)
     r = run_worker('replay', pid, sc.get('hashseed', 0),
-                   ['--scenario', path, '--out', out] + (['--trace'] if trace else []), timeout=900)
+                   ['--scenario', path, '--out', out] + (['--trace'] if trace else []), timeout=900, tmpdir=scratch)
     if r.returncode != 0 or not os.path.exists(out):
         sys.stderr.write(r.stdout[-2000:] + r.stderr[-4000:])
         return None
@@ -302,7 +304,7 @@ def replay_file(pid, path, scratch, trace=False):
 
 
 def do_replay(pid, path):
-    scratch = tempfile.mkdtemp(prefix='simverif-replay-')
+    scratch = tempfile.mkdtemp(prefix='simverif-replay-', dir='/dev/shm' if os.path.isdir('/dev/shm') else None)
     try:
         res = replay_file(pid, path, scratch)
         if res is None:
